@@ -8,7 +8,8 @@ Theorems of record about `Model.Versioned` (model of `dns/versioned.py`: `_versi
 `_get_next_version_id`).  `reach ops` is the state of a freshly constructed zone after an **arbitrary** list of
 operations: readers opened on the latest version, by id or by serial (successfully or not), closed (also twice),
 writers opened, committed with or without changes, rolled back, policies set to the default, `max n`, unlimited or
-an arbitrary predicate.  All statements hold after every prefix of every such history (induction over the list).
+an **arbitrary** pure callable of (number of versions retained when asked, version) via `Op.setPred f` — `f` need not be
+monotone in the id or in the count.  All statements hold after every prefix of every such history (induction over the list).
 
 Python-level immutability of snapshot objects is *not* a theorem: versions are persistent values in the model.  It is
 established by enumeration in `harness/props/C11.py` (every public callable of every object reachable from a read
@@ -66,6 +67,57 @@ theorem pruning_drops_exactly_allowed_prefix (p : Policy) (least : Nat) (vs : Li
       FrontKept p least (vs.drop n) :=
   pruneLoop_exact p least vs
 
+/-- part 3, the precise meaning of "exactly what the pruning policy allows" for an arbitrary (possibly
+non-monotone) policy: call a suffix `S` of the deque *closed* when its first version is not prunable at its turn —
+its id is at or above `least_kept`, or the policy, asked about it with `len = |S|`, says no (`FrontKept`).  What
+`_prune_versions_unlocked` retains is a closed suffix, and it is the **longest** closed suffix: every other closed
+suffix is shorter.  So pruning proceeds from the oldest version and stops at the first refusal; versions behind a
+refused one stay even if the policy would accept them. -/
+theorem pruning_keeps_longest_closed_suffix (p : Policy) (least : Nat) (vs : List Ver) :
+    pruneLoop p least vs <:+ vs ∧ FrontKept p least (pruneLoop p least vs) ∧
+      ∀ S, S <:+ vs → FrontKept p least S → S.length ≤ (pruneLoop p least vs).length :=
+  ⟨pruneLoop_suffix p least vs, pruneLoop_front p least vs, fun S hS hF => pruneLoop_longest p least vs S hS hF⟩
+
+/-- `reader(serial=sn)`: the versions are scanned from the newest; the transaction is opened on the **newest**
+retained version whose SOA serial is `sn` (every retained version with that serial has an id at most the chosen
+one), and `KeyError` is raised exactly when no retained version has that serial. -/
+theorem reader_by_serial_is_newest_match (ops : List Op) (h sn : Nat) :
+    (∃ v, v ∈ (reach ops).versions ∧ v.serial = some sn ∧
+        (∀ w ∈ (reach ops).versions, w.serial = some sn → w.id ≤ v.id) ∧
+        (step (reach ops) (.openSerial h sn)).2 = .pinned v.id v.content) ∨
+    ((∀ w ∈ (reach ops).versions, w.serial ≠ some sn) ∧
+        (step (reach ops) (.openSerial h sn)) = (reach ops, .err .keyError)) := by
+  have hinc := (ids_strictly_increase ops).1
+  cases hf : findSerial (reach ops).versions sn with
+  | some v =>
+    left
+    obtain ⟨hq, pre, post, he, hpost⟩ := find_rev_some hf
+    refine ⟨v, by rw [he]; simp, by simpa using hq, ?_, by simp only [step, hf]⟩
+    intro w hw hs
+    rw [he] at hw hinc
+    rcases List.mem_append.mp hw with hm | hm
+    · exact Nat.le_of_lt ((List.pairwise_append.mp hinc).2.2 w hm v (by simp))
+    · rcases List.mem_cons.mp hm with e | hm'
+      · rw [e]; exact Nat.le_refl _
+      · have := hpost w hm'; simp [hs] at this
+  | none =>
+    right
+    refine ⟨fun w hw => by simpa using find_rev_none hf w hw, by simp only [step, hf]⟩
+
+/-- `reader(id=i)`: opened on the retained version with that id (there is at most one), `KeyError` exactly when
+no retained version has it — in particular for every id that was pruned or never issued. -/
+theorem reader_by_id (ops : List Op) (h i : Nat) :
+    (∃ v, v ∈ (reach ops).versions ∧ v.id = i ∧ (step (reach ops) (.openId h i)).2 = .pinned v.id v.content) ∨
+    ((∀ w ∈ (reach ops).versions, w.id ≠ i) ∧ (step (reach ops) (.openId h i)) = (reach ops, .err .keyError)) := by
+  cases hf : findId (reach ops).versions i with
+  | some v =>
+    left
+    obtain ⟨hq, pre, post, he, _⟩ := find_rev_some hf
+    exact ⟨v, by rw [he]; simp, by simpa using hq, by simp only [step, hf]⟩
+  | none =>
+    right
+    exact ⟨fun w hw => by simpa using find_rev_none hf w hw, by simp only [step, hf]⟩
+
 /-- "observes exactly the content of the version that was current when it was opened (or of the version requested
 by id or serial) for its whole life, no matter how many commits happen meanwhile": whatever opening reader `h`
 returned, observing through `h` returns the same (id, content) after any further operations that do not close `h`. -/
@@ -101,6 +153,13 @@ example : ((reach [.openLatest 1, .wopen, .commit 10 none true, .wopen, .commit 
 example : ((reach [.setPolicy (some [2, 3]), .wopen, .commit 10 none true, .wopen, .commit 11 none true]).versions.map (·.id)) = [1, 2, 3] := by decide
 -- max 2
 example : ((reach [.setMax (some 2), .wopen, .commit 10 none true, .wopen, .commit 11 none true]).versions.map (·.id)) = [2, 3] := by decide
+-- a policy that is not monotone in the count: "prune only while exactly 3 versions are retained"
+example : ((reach [.setPred (fun len _ => len == 3), .wopen, .commit 10 none true, .wopen, .commit 11 none true,
+    .wopen, .commit 12 none true]).versions.map (·.id)) = [3, 4] := by decide
+-- not monotone in the id: true on version 2 only; version 1 is refused, so 2 stays although the policy accepts it
+example : ((reach [.setPred (fun _ v => v.id == 2), .wopen, .commit 10 none true, .wopen, .commit 11 none true]).versions.map (·.id)) = [1, 2, 3] := by decide
+-- two retained versions with serial 6: reader(serial=6) takes the newer one
+example : (step (reach [.setMax none, .wopen, .commit 10 (some 6) true, .wopen, .commit 11 (some 6) true]) (.openSerial 1 6)).2 = .pinned 3 11 := by decide
 -- snapshot_stable's hypotheses
 example : findReader (reach [.openLatest 7]).readers 7 = some ⟨1, 0, none⟩ := by decide
 example : (step (reach [.openLatest 7, .wopen, .commit 10 (some 5) true, .setMax (some 1)]) (.observe 7)).2 = .pinned 1 0 := by decide
